@@ -577,6 +577,12 @@ func (m *Manager) rotateWAL() error {
 	// Store the old WAL for proper closure
 	oldWAL := m.wal
 
+	// Continue the sequence where the old WAL stopped so that sequence
+	// numbers keep increasing across rotations
+	if oldWAL != nil {
+		newWAL.UpdateNextSequence(oldWAL.GetNextSequence())
+	}
+
 	// Atomically update the WAL reference using atomic pointer operations
 	atomic.StorePointer((*unsafe.Pointer)(unsafe.Pointer(&m.wal)), unsafe.Pointer(newWAL))
 
